@@ -82,7 +82,10 @@ def product_rules(chk, repo, rid):
     else:
         n += 1
     # ---------------- multiply_mpo
-    fi = repo.func('mpo.multiply_mpo')
+    from ..canon import canonical, ARITH_VALUE_ROLES
+    fi = canonical(repo.func('mpo.multiply_mpo'), ARITH_VALUE_ROLES)
+    rets = [r_ for r_ in ast.walk(fi.node) if isinstance(r_, ast.Return) and isinstance(r_.value, ast.Name)]
+    resn = rets[0].value.id if len(rets) == 1 else 'op'
     loop = [l for l in fi.node.body if isinstance(l, ast.For) and any(
         isinstance(c, ast.Call) and norm(c.func) == 'np.tensordot' for c in ast.walk(l))]
     if len(loop) != 1:
@@ -94,7 +97,7 @@ def product_rules(chk, repo, rid):
     try:
         it = LegInterp(fi, env, repo=repo, body=body)
         it.run()
-        v = it.env.get(f'@op.A[{i}]')
+        v = it.env.get(f'@{resn}.A[{i}]')
     except LegError as ex:
         chk.ob(rid, where(repo, fi, loop[0]), 'multiply_mpo: site update is well-formed in the leg domain', False, str(ex),
                key=f'{rid}|multiply|wellformed')
@@ -109,7 +112,7 @@ def product_rules(chk, repo, rid):
         chk.ob(rid, w, 'multiply_mpo: the in-leg of op0 is contracted with the out-leg of op1 (op0 @ op1)',
                c['pairs'] == [tuple(sorted((f'{X}.1', f'{Y}.0')))], f'{c["pairs"]}', key=f'{rid}|multiply|pair')
         lab = [s for l in fi.node.body if isinstance(l, ast.For) for s in l.body if isinstance(s, ast.Assign) and
-               norm(s.targets[0]).startswith('op.qD[')]
+               norm(s.targets[0]).startswith(f'{resn}.qD[')]
         okl = False
         detail = ''
         if len(lab) == 1 and v.rank == 4:
@@ -120,7 +123,7 @@ def product_rules(chk, repo, rid):
                 left = [(s_, t.replace(f'[{i}]', f'[{var}]')) for s_, t in charges(v.axes[2])]
                 right = [(s_, t.replace(f'[{i} + 1]', f'[{var}]')) for s_, t in charges(v.axes[3])]
                 okl = left == [(1, b['__a']), (1, b['__b'])] and right == [(-1, b['__a']), (-1, b['__b'])] and \
-                    norm(lp.iter) == 'range(L + 1)' and norm(lab[0].targets[0]) == f'op.qD[{var}]'
+                    norm(lp.iter) == 'range(L + 1)' and norm(lab[0].targets[0]) == f'{resn}.qD[{var}]'
                 detail = f'labels flatten([{b["__a"]}, {b["__b"]}]); merged legs {left} / {right}'
         chk.ob(rid, w, 'multiply_mpo: bond labels are flattened in the order in which the bond legs are merged (op0 first), '
                'one label per bond 0..L', okl, detail, key=f'{rid}|multiply|labels')
@@ -174,8 +177,12 @@ def _block_grid(node):
 def sum_rules(chk, repo, rid):
     """block layout of sums vs. order of the concatenated labels; alpha once per chain"""
     n = 0
+    from ..canon import canonical, ARITH_VALUE_ROLES
     for q, x0, x1, res, rank in (('mps.add_mps', 'mps0', 'mps1', 'mps', 3), ('mpo.add_mpo', 'op0', 'op1', 'op', 4)):
-        fi = repo.func(q)
+        fi = canonical(repo.func(q), ARITH_VALUE_ROLES)
+        rets = [r_ for r_ in ast.walk(fi.node) if isinstance(r_, ast.Return) and isinstance(r_.value, ast.Name)]
+        if len(rets) == 1:
+            res = rets[0].value.id
         lax, rax = rank - 2, rank - 1           # left / right bond axes
         w = where(repo, fi, fi.node)
         # labels: concatenate((x0.qD[i], x1.qD[i])) for the inner bonds 1..L-1
